@@ -16,7 +16,7 @@
   could answer from state of its own) is the pinned fact `C13_pin_daemon_connector`, and is
   executed on every run against a stand-in gRPC daemon with rotating epochs (harness c13fk).
 -/
-import ScionTime.Model.DrkeyFetch
+import ScionTime.Proofs.DrkeyFetch
 import ScionTime.Gen.Scion
 import ScionTime.Gen.Server
 import ScionTime.Gen.Client
@@ -61,66 +61,6 @@ theorem C13_pin_call_sites :
     Gen.Client.scionClientHostHostMeta =
       "ProtoId:scion.DRKeyProtocolTS;Validity:cTxTime0;SrcIA:remoteAddr.IA;DstIA:localAddr.IA;SrcHost:remoteAddr.Host.IP.String();DstHost:localAddr.Host.IP.String()" := by
   decide
-
-/-! ### The cache as a map -/
-
-theorem lookup_mem {f : Fetcher} {a : Nat} {k : HostASKey} (h : f.lookup a = some k) : (a, k) ∈ f.haks := by
-  unfold Fetcher.lookup at h
-  cases hf : f.haks.find? (fun e => e.1 == a) with
-  | none => simp [hf] at h
-  | some e =>
-    simp only [hf, Option.map_some, Option.some.injEq] at h
-    have hp := List.find?_some hf
-    have hm := List.mem_of_find?_eq_some hf
-    have : e.1 = a := by simpa using hp
-    obtain ⟨e1, e2⟩ := e
-    simp only at this h
-    subst this; subst h
-    exact hm
-
-theorem lookup_insert_same (f : Fetcher) (a : Nat) (k : HostASKey) : (f.insert a k).lookup a = some k := by
-  simp [Fetcher.lookup, Fetcher.insert]
-
-theorem lookup_insert_other (f : Fetcher) (a a' : Nat) (k : HostASKey) (h : a' ≠ a) :
-    (f.insert a k).lookup a' = f.lookup a' := by
-  unfold Fetcher.lookup Fetcher.insert
-  have h1 : ((a, k).1 == a') = false := by simpa using fun e => h e.symm
-  simp only [List.find?_cons, h1]
-  congr 1
-  induction f.haks with
-  | nil => rfl
-  | cons e es ih =>
-    by_cases he : e.1 = a
-    · have : (e.1 != a) = false := by simp [he]
-      have h2 : (e.1 == a') = false := by simpa [he] using fun e' => h e'.symm
-      simp [this, h2, ih]
-    · have : (e.1 != a) = true := by simpa using he
-      simp only [List.filter_cons, this, if_true, List.find?_cons]
-      split
-      · rfl
-      · exact ih
-
-theorem mem_insert {f : Fetcher} {a : Nat} {k : HostASKey} {e : Nat × HostASKey}
-    (h : e ∈ (f.insert a k).haks) : e = (a, k) ∨ (e ∈ f.haks ∧ e.1 ≠ a) := by
-  simp only [Fetcher.insert, List.mem_cons, List.mem_filter] at h
-  rcases h with h | ⟨h1, h2⟩
-  · exact .inl h
-  · exact .inr ⟨h1, by simpa using h2⟩
-
-/-- the refetch test is false exactly for a cached key of the asked identity whose epoch
-    contains the asked instant -/
-theorem stale_false_iff (hit : Option HostASKey) (m : HostASMeta) :
-    stale hit m = false ↔ ∃ k, hit = some k ∧ k.id = m.id ∧ k.epoch.contains m.validity = true := by
-  cases hit with
-  | none => simp [stale]
-  | some k =>
-    obtain ⟨⟨p, s, d, h⟩, ep, key⟩ := k
-    obtain ⟨⟨p', s', d', h'⟩, v⟩ := m
-    simp only [stale, Bool.or_eq_false_iff, Bool.not_eq_false', bne_eq_false_iff_eq, Option.some.injEq,
-      exists_eq_left', KeyId.mk.injEq]
-    constructor
-    · rintro ⟨⟨⟨⟨h1, h2⟩, h3⟩, h4⟩, h5⟩; exact ⟨⟨h2, h3, h4, h5⟩, h1⟩
-    · rintro ⟨⟨h2, h3, h4, h5⟩, h1⟩; exact ⟨⟨⟨⟨h1, h2⟩, h3⟩, h4⟩, h5⟩
 
 /-! ### One call, exactly -/
 
@@ -223,16 +163,10 @@ theorem C13_fetch_other_ias_untouched (cfg : Cfg) (hm : cfg.mock = false) (f : F
 def Honest (c : Call) : Prop :=
   ∀ k, c.ans = some k → k.id = c.m.id ∧ k.epoch.contains c.m.validity = true
 
-/-- the results of a history, paired with their calls -/
-theorem runCalls_length (cfg : Cfg) (cs : List Call) : ∀ f, (runCalls cfg f cs).2.length = cs.length := by
-  induction cs with
-  | nil => intro f; rfl
-  | cons c cs ih => intro f; simp [runCalls, ih]
-
 /-- General induction principle for histories: a property `I` of keys that holds for every
     cached key at the start and for every key the connector hands out holds for every key any
     call returns, and for every cached key afterwards. -/
-theorem runCalls_keys (cfg : Cfg) (hm : cfg.mock = false) (I : HostASKey → Prop) (cs : List Call)
+theorem C13_fetch_history_invariant (cfg : Cfg) (hm : cfg.mock = false) (I : HostASKey → Prop) (cs : List Call)
     (hans : ∀ c ∈ cs, ∀ k, c.ans = some k → I k) :
     ∀ f : Fetcher, (∀ e ∈ f.haks, I e.2) →
       (∀ r ∈ (runCalls cfg f cs).2, ∀ k, r.out = some k → I k) ∧
@@ -281,7 +215,7 @@ theorem C13_fetch_key_valid_at_instant (cfg : Cfg) (hm : cfg.mock = false) (cs :
     ∀ p ∈ cs.zip (runCalls cfg {} cs).2, ∀ k, p.2.out = some k →
       k.id = p.1.m.id ∧ k.epoch.contains p.1.m.validity = true ∧ ∃ c ∈ cs, c.ans = some k := by
   -- the pairing is handled by a second induction carrying the set of issued keys
-  have issued := (runCalls_keys cfg hm (fun k => ∃ c ∈ cs, c.ans = some k) cs
+  have issued := (C13_fetch_history_invariant cfg hm (fun k => ∃ c ∈ cs, c.ans = some k) cs
     (fun c hc k hk => ⟨c, hc, hk⟩) {} (by simp)).1
   have valid : ∀ (cs' : List Call), (∀ c ∈ cs', Honest c) → ∀ f : Fetcher,
       ∀ p ∈ cs'.zip (runCalls cfg f cs').2, ∀ k, p.2.out = some k →
